@@ -138,8 +138,28 @@ def run(ctx, F):
                                   key="C09.all-bins|%s" % q)
     if "policy::marksweepspace::native_ms::global::MarkSweepSpace::release" in F.fns:
         ctx.judge(nb >= 3, "C09.all-bins", "bin loops found in the native mark-sweep release path", expected=">= 3", found=str(nb), key="C09.all-bins|count")
-    for ty in ("policy::marksweepspace::native_ms::block_list::BlockLists",):
-        pass
+    # ---- C09.abandoned-lists: at every GC all three global abandoned block lists are offered for release (a block whose objects
+    # all died while it sat on the `unswept` list is otherwise never given back unless its size class is allocated from again)
+    sl = F.fns.get("policy::marksweepspace::native_ms::global::AbandonedBlockLists::sweep_later")
+    if sl is not None:
+        rb = {}
+        for c in live_calls(sl, name="release_blocks"):
+            m = re.match(r"^arg1\.(available|consumed|unswept)\.", show(strip(sl.flow.arg_tree(c, 0))))
+            if m:
+                rb[m.group(1)] = [g for g in guard_strs(sl, c.bb) if "Iterator>::next" not in g]
+        # with eager sweeping nothing is ever moved to `unswept` (no append in the compiled body): then two lists suffice
+        lazy = any(c.name == "append" and ".unswept." in show(strip(sl.flow.arg_tree(c, 0))) for c in live_calls(sl))
+        need = {"available", "consumed", "unswept"} if lazy else {"available", "consumed"}
+        ctx.judge(need <= set(rb) and all(not v for v in rb.values()), "C09.abandoned-lists", "sweep_later releases the empty blocks of all three abandoned lists, for every bin",
+                  expected="release_blocks on available[i], consumed[i] and unswept[i] inside the bin loop, unconditionally", found=str(rb), where=where(sl), key="C09.abandoned-lists|sweep_later")
+    # ---- C09.chunk-return: a freed page run that completes a free chunk gives the chunk back; the test uses the COALESCED size
+    rp = F.fn("util::heap::freelistpageresource::FreeListPageResource::release_pages")
+    fr = [c for c in live_calls(rp) if c.name == "free" and c.q and c.q.endswith("FreeList::free")]
+    rc = live_calls(rp, name="release_free_chunks")
+    okc = len(fr) == 1 and const_arg(rp.flow.arg_tree(fr[0], 2)) is True and len(rc) == 1 and "FreeList::free(" in show(strip(rp.flow.arg_tree(rc[0], 2))) and \
+        [(show(p.tree), p.val) for p in guards(rp, rc[0].bb)] == [("arg1.common.contiguous", False)]
+    ctx.judge(okc, "C09.chunk-return", "release_pages hands the coalesced free run to release_free_chunks (discontiguous spaces)", expected="let freed = free_list.free(page, true); if !contiguous { release_free_chunks(first, freed) }",
+              found="free(.., %s); release_free_chunks sites=%d" % ([const_arg(rp.flow.arg_tree(c, 2)) for c in fr], len(rc)), where=where(rp), key="C09.chunk-return|release_pages")
 
     # ---- C09.release-counting (native mark-sweep)
     msr = F.fns.get("policy::marksweepspace::native_ms::global::MarkSweepSpace::release")
